@@ -53,6 +53,7 @@ var Aux = map[string]func(args []string) int{
 	"c04probe": c04.Aux,
 	"c18hist":  c18.Aux,
 	"c17race":  c17.Aux,
+	"c17first": c17.AuxFirst,
 	"c11race":  c11.Aux,
 	"c06ref":   c06.Aux,
 	"c05ref":   c05.Aux,
